@@ -21,6 +21,7 @@ if sel:
     seeds = [s for s in seeds if any(s.startswith(x) for x in sel)]
 sh("git -C /repo worktree remove --force " + WT)
 rc, o = sh("git -C /repo worktree add %s HEAD" % WT); assert rc == 0, o
+os.makedirs(BD, exist_ok=True)
 results = {}
 try:
     for s in seeds:
@@ -31,6 +32,7 @@ try:
         if rc != 0:
             results[s] = "PATCH-DOES-NOT-APPLY " + o[:200]; print(s, results[s]); continue
         caught = []
+        nobs = 0
         for p in props:
             t0 = time.time()
             rc, o = sh("./check %s --tier quick" % p, cwd=ROOT, env=dict(os.environ, VERIF_REPO=WT, VERIF_BUILD=BD, VERIF_EVIDENCE=BD + '/evidence'))
@@ -38,9 +40,13 @@ try:
             # compile, an internal error, a harness that does not build) never count as "caught"
             v = [l for l in o.splitlines() if l.startswith("VIOLATION")
                  and not any(("/" + x) in l for x in ("proof_", "check_internal", "correspondence_"))]
-            caught.append((p, rc, len(v), round(time.time() - t0), v[:1]))
+            obs = [l for l in o.splitlines() if l.startswith("OBSERVATION")]
+            caught.append((p, rc, len(v), round(time.time() - t0), v[:1] or obs[:1]))
+            nobs += len(obs)
         ok = any(rc == 1 and n > 0 for (_, rc, n, _, _) in caught)
-        results[s] = ("CAUGHT " if ok else "MISSED ") + json.dumps(caught)
+        # a change outside the property text as read (meta "outside_text") is expected to show as OBSERVATION lines only
+        st = "CAUGHT " if ok else ("OBSERVED " if meta.get("outside_text") and nobs else "MISSED ")
+        results[s] = st + json.dumps(caught)
         print(s, results[s][:300], flush=True)
 finally:
     sh("git -C /repo worktree remove --force " + WT)
@@ -56,7 +62,7 @@ head = sh("git -C /repo log --format=%h -1")[1].strip()
 for k, v in results.items():
     st = v.split(" ")[0]
     det = []
-    if st in ("CAUGHT", "MISSED"):
+    if st in ("CAUGHT", "MISSED", "OBSERVED"):
         for (p, rc, n, secs, first) in json.loads(v.split(" ", 1)[1]):
             det.append({"check": p, "exit": rc, "violations": n, "first": (first[0] if first else "")})
     allr[k] = {"status": st, "repo_head": head, "verif_head": sh("git -C %s log --format=%%h -1" % ROOT)[1].strip(), "detail": det}
